@@ -10,6 +10,10 @@ import os
 import sys
 from fractions import Fraction
 
+# results of wide products are integers with thousands of digits; canon() renders them
+if hasattr(sys, "set_int_max_str_digits"):
+    sys.set_int_max_str_digits(0)
+
 DEFAULT_SEED = 20261001
 H_SLOTS = 16
 
